@@ -8,6 +8,7 @@ package main
 import (
 	"go/types"
 	"math"
+	"runtime"
 	"runtime/debug"
 	"runtime/pprof"
 	"bufio"
@@ -34,6 +35,17 @@ const verifDir = "/verif"
 // embedVars: contents of //go:embed string variables (pkgpath.name -> text), read at load time.
 var embedVars map[string]string
 
+func defaultWorkers() int {
+	n := runtime.NumCPU() // honours the affinity mask / cgroup cpuset of the process
+	if n > 16 {
+		n = 16
+	}
+	if n < 1 {
+		n = 1
+	}
+	return n
+}
+
 func envOr(k, d string) string {
 	if v := os.Getenv(k); v != "" {
 		return v
@@ -50,7 +62,7 @@ func main() {
 	arg := os.Args[2]
 	fs := flag.NewFlagSet("gosym", flag.ExitOnError)
 	tier := fs.String("tier", envOr("VERIF_TIER", "quick"), "quick or thorough")
-	workers := fs.Int("workers", 16, "parallel workers")
+	workers := fs.Int("workers", defaultWorkers(), "parallel workers (default: the CPUs available to this process, at most 16)")
 	solver := fs.String("solver", "z3", "z3, z3-new or cvc5")
 	only := fs.String("entry", "", "run only this entry")
 	repo := fs.String("repo", envOr("VERIF_REPO", "/repo"), "repository root")
